@@ -194,10 +194,13 @@ func TestFairness(t *testing.T) {
 		specTr := newFairTracker(w.spec)
 		implTr := newFairTracker(w.cur())
 		startedInSpec := w.mode == modeSpec
-		for c := 0; c < R; c++ {
+		for c := 0; c < R && !w.dead; c++ {
 			ev.Guard(t, w.text, func() { w.vs.IncrementProposerPriority(1) })
 			w.settle("increment", func(m *model) { m.increment(1) }, true, nil)
 			w.noteRounds(1)
+			if w.dead {
+				break
+			}
 			// (a) the specification itself
 			if d, s := specTr.call(w.spec.proposer, w.spec.fired); d != "" || s != "" {
 				t.Fatalf("harness error: the fairness bound does not hold on the specification model: %s %s\n%s", d, s, w.text())
